@@ -221,6 +221,11 @@ fn make_crypto_reader<'a>(
         if let CompressionMethod::Unsupported(_) = compression_method {
             return unsupported_zip_error("Compression method not supported");
         }
+        // The AES pseudo-method is only valid as the outer method of an entry whose
+        // AES extra field names the real one; it can never be decoded itself.
+        if compression_method == CompressionMethod::AES {
+            return unsupported_zip_error("Compression method not supported");
+        }
     }
 
     let reader = match (password, aes_info) {
